@@ -153,3 +153,21 @@ package keeper
 //@       && order.Provider == old(order.Provider) && order.Timeout == old(order.Timeout) && order.UnitPrice == old(order.UnitPrice) && order.PaymentDid == old(order.PaymentDid)
 //@       && order.Commit == old(order.Commit) && order.Operation == old(order.Operation) && order.Cid == old(order.Cid) && order.CreatedAt == H
 //@       && (len(sps) > 0 ==> order.Status == OrderDataReady) && (len(sps) == 0 ==> order.Status == old(order.Status))
+
+// RenewOrder: the owner's payment address pays the renewal price into the market escrow; the renewal order gets a fresh id
+//@ func (Keeper) RenewOrder(ctx, order) (id, err)
+//@   requires order != nil
+//@   requires [C16.inv.order] forall i int :: 0 <= i && i <= MaxUint64 && has(Order, i) ==> i < effOrderCount(get(OrderCount))
+//@   modifies Order[effOrderCount(get(OrderCount))], OrderCount, Bank, *order
+//@   ensures [C04.reneworder.payer] err == nil ==> has(PaymentAddress, order.Owner)
+//@   ensures [C04.reneworder.charge] [C06.reneworder.charge] err == nil && addr(PaymentAddress[order.Owner].Address) != moduleAddr("market") ==> order.Amount.Amount > 0
+//@       && bal(addr(PaymentAddress[order.Owner].Address), order.Amount.Denom) == old(bal(addr(PaymentAddress[order.Owner].Address), order.Amount.Denom)) - order.Amount.Amount
+//@       && bal(moduleAddr("market"), order.Amount.Denom) == old(bal(moduleAddr("market"), order.Amount.Denom)) + order.Amount.Amount
+//@   ensures [C04.reneworder.bankframe] forall a addr, d string :: (a != moduleAddr("market") && a != addr(PaymentAddress[order.Owner].Address)) || err != nil ==> bal(a, d) == old(bal(a, d))
+//@   ensures [C16.reneworder.id] err == nil ==> id == old(effOrderCount(get(OrderCount))) && id >= 1 && !old(has(Order, id)) && order.Id == id && has(Order, id) && Order[id] == *order
+//@       && (id < MaxUint64 ==> effOrderCount(get(OrderCount)) == id + 1 && (forall i int :: 0 <= i && i <= MaxUint64 && has(Order, i) ==> i < effOrderCount(get(OrderCount))))
+//@   ensures [C16.reneworder.fields] order.Owner == old(order.Owner) && order.DataId == old(order.DataId) && order.Amount == old(order.Amount) && order.Shards == old(order.Shards)
+//@       && order.Duration == old(order.Duration) && order.Operation == old(order.Operation) && order.UnitPrice == old(order.UnitPrice) && order.Status == old(order.Status)
+//@       && order.Size_ == old(order.Size_) && order.Replica == old(order.Replica) && order.Commit == old(order.Commit) && order.Creator == old(order.Creator)
+//@   ensures [C04.reneworder.err] err != nil ==> (forall i int :: 0 <= i && i <= MaxUint64 ==> Order[i] == old(Order[i]) && (has(Order, i) <==> old(has(Order, i)))) && get(OrderCount) == old(get(OrderCount))
+//@       && *order == old(*order)
